@@ -443,7 +443,7 @@ func run(c Case, ev *pbt.Ev) error {
 }
 
 func TestProp_RoundTrip(t *testing.T) {
-	pbt.Run(t, pbt.Options{Prop: "C03", Name: "RoundTrip", Quick: 3000, Thorough: 150000,
+	pbt.Run(t, pbt.Options{Prop: "C03", Name: "RoundTrip", Quick: 3000, Thorough: 30000,
 		Rule: "rapid: archive (<=14 entries: reg sizes around chunk multiples, dirs, symlinks, hardlink chains, devices, fifos, duplicate names, ./ ../ / spellings, PAX xattrs, big ids, sub-second and zero mtimes, " +
 			"reserved names) x {Build, Writer.AppendTar, AppendTarLossLess} x {gzip levels, zstd:chunked levels, external TOC} x chunk size x min-chunk-size x workers 1-12 x input {plain, gzip, multi-member gzip, zstd, already eStargz}; " +
 			"oracles: stdlib decompress+untar equals the input entries header-for-header (reflect.DeepEqual) plus documented additions; independent documented parse re-derives every chunk digest, file digest, TOC digest, DiffID; lossless byte equality; " +
